@@ -20,6 +20,7 @@ theorem item_ok_iff (cd : CData) (n : Nat) (hk : cd.kind = .array n) (hn : (n : 
   constructor
   · intro ⟨a, h⟩
     unfold indexedPtr at h
+    gen_norm at h
     simp only [hk] at h
     split at h
     · cases h
@@ -35,6 +36,7 @@ theorem item_ok_iff (cd : CData) (n : Nat) (hk : cd.kind = .array n) (hn : (n : 
 theorem item_reject_is_IndexError (cd : CData) (n : Nat) (hk : cd.kind = .array n) (i : Int)
     (h : ¬ (0 ≤ i ∧ i < n)) : indexedPtr cd (.int i) = .error .IndexError := by
   unfold indexedPtr
+  gen_norm
   simp only [hk]
   split
   · rfl
@@ -48,6 +50,7 @@ theorem item_reject_is_IndexError (cd : CData) (n : Nat) (hk : cd.kind = .array 
 theorem owning_ptr_only_zero (cd : CData) (hk : cd.kind = .ownptr) (i : Int) :
     (∃ a, indexedPtr cd (.int i) = .ok a) ↔ i = 0 := by
   unfold indexedPtr
+  gen_norm
   simp only [hk]
   constructor
   · intro ⟨a, h⟩
@@ -66,6 +69,7 @@ theorem owning_ptr_only_zero (cd : CData) (hk : cd.kind = .ownptr) (i : Int) :
 theorem plain_ptr_any_index (cd : CData) (hk : cd.kind = .ptr) (hnn : cd.addr ≠ 0) (i : Int) :
     (∃ a, indexedPtr cd (.int i) = .ok a) ↔ fitsSsize i := by
   unfold indexedPtr
+  gen_norm
   simp only [hk, hnn, if_false]
   constructor
   · intro ⟨a, h⟩
@@ -85,6 +89,7 @@ theorem slice_ok_iff (cd : CData) (n : Nat) (hk : cd.kind = .array n) (hn : (n :
   constructor
   · intro ⟨r, h⟩
     unfold sliceArg ssizeArg at h
+    gen_norm at h
     simp only [hk] at h
     by_cases f1 : fitsSsize i
     · by_cases f2 : fitsSsize j
@@ -113,6 +118,7 @@ theorem slice_ok_bounds (cd : CData) (n : Nat) (hk : cd.kind = .array n) (hn : (
 theorem slice_needs_no_step (cd : CData) (a b c : PyArg) (hc : c ≠ .none) :
     ∃ e, sliceArg cd a b c = .error e := by
   unfold sliceArg
+  gen_norm
   split
   · exact ⟨_, rfl⟩
   · split
@@ -129,6 +135,7 @@ theorem slice_reject_is_IndexError_partial (cd : CData) (n : Nat) (hk : cd.kind 
     (i j : Int) (hi : fitsSsize i) (hj : fitsSsize j) (h : ¬ (0 ≤ i ∧ i ≤ j ∧ j ≤ n)) :
     sliceArg cd (.int i) (.int j) .none = .error .IndexError := by
   unfold sliceArg ssizeArg
+  gen_norm
   simp only [hk, hi, hj, if_true, ne_eq, not_true_eq_false, if_false]
   split
   · rfl
@@ -149,9 +156,11 @@ theorem slice_reject_any (cd : CData) (n : Nat) (hk : cd.kind = .array n)
     · exact Or.inl (slice_reject_is_IndexError_partial cd n hk i j hi hj h)
     · right
       unfold sliceArg ssizeArg
+      gen_norm
       simp only [hi, hj, if_true, if_false]
   · right
     unfold sliceArg ssizeArg
+    gen_norm
     simp only [hi, if_false]
 
 /-- Witness: `x[1:2**70]` on an `int[5]` raises OverflowError, not IndexError. -/
@@ -206,6 +215,7 @@ theorem slice_aliases (cd : CData) (n : Nat) (hk : cd.kind = .array n) (hn : (n 
     ?_, rfl, rfl, rfl, ?_⟩
   · unfold slice
     rw [slice_ok_value cd n hk hn i j h]
+    rfl
   · intro k hk0 hk1
     have hptr : indexedPtr { cd with kind := .array (j - i).toNat, addr := wrapU (cd.addr + cd.isize * i) } (.int k)
         = indexedPtr cd (.int (i + k)) := by
@@ -240,6 +250,7 @@ theorem ass_slice_effect (m : Memory) (cd : CData) (n : Nat) (hk : cd.kind = .ar
   obtain ⟨ea, er⟩ := slice_addr_exact m cd n hin a b hab hbn
   have hl : ((b : Int) - (a : Int)).toNat = b - a := by omega
   unfold assSlice
+  gen_norm
   rw [slice_ok_value cd n hk hn _ _ h]
   simp only [hl, Int.toNat_natCast, ea]
   exact assLoop_spec cd.isize.toNat (b - a) vs m _ hall (by have := hin.2.1; omega) er
@@ -272,6 +283,7 @@ theorem ass_slice_first_item_fails (m : Memory) (cd : CData) (n : Nat) (hk : cd.
     (hn : (n : Int) ≤ ssizeMax) (i j : Int) (h : 0 ≤ i ∧ i < j ∧ j ≤ n) (e : Err) (vs : List Item) :
     assSlice m cd (.int i) (.int j) .none (.items (.error e :: vs)) = (m, .error e) := by
   unfold assSlice
+  gen_norm
   rw [slice_ok_value cd n hk hn i j (by omega)]
   obtain ⟨l, hl⟩ : ∃ l, (j - i).toNat = l + 1 := ⟨(j - i).toNat - 1, by omega⟩
   simp only [hl, assLoop, storeItem]
@@ -289,10 +301,12 @@ theorem add_sub_inverse (p : CData)
   have hq : addInt p (.int i) 1 =
       .ok { p with kind := .ptr, addr := wrapU (p.addr + i * p.isize) } := by
     unfold addInt
+    gen_norm
     simp only [hi, not_true_eq_false, if_false, Int.mul_one, wrapS_of_fits i hi, hns]
     rcases hk with h | h | ⟨n, h⟩ <;> rw [h]
   refine ⟨_, hq, rfl, rfl, ?_⟩
   unfold ptrSub
+  gen_norm
   have hw : p.kind.isPtrOrArray = true := by
     rcases hk with h | h | ⟨n, h⟩ <;> rw [h] <;> rfl
   simp only [Kind.isPtr, hw, and_self, not_true_eq_false, if_false]
@@ -313,6 +327,7 @@ theorem add_index_assoc (p : CData) (hk : p.kind = .ptr) (hs : 0 ≤ p.isize) (i
     (ha : indexedPtr q (.int j) = .ok a) (hb : indexedPtr p (.int (i + j)) = .ok b) : a = b := by
   have hns : ¬ p.isize < 0 := by omega
   unfold addInt at hq
+  gen_norm at hq
   simp only [hi, not_true_eq_false, if_false, Int.mul_one, wrapS_of_fits i hi, hns, hk] at hq
   injection hq with hq
   subst hq
@@ -339,6 +354,7 @@ theorem index_addr_exact (cd : CData) (n : Nat) (hk : cd.kind = .array n) (hs : 
   injection hi' with hi'; subst hi'
   have hb : 0 ≤ i ∧ i < n := by
     unfold indexedPtr at h
+    gen_norm at h
     simp only [hk] at h
     split at h
     · cases h
@@ -369,6 +385,7 @@ theorem offsetof_eq_mul (isize : Int) (hs : isize ≥ 0) (hs2 : fitsSsize isize)
     (i : Int) (off : Int) :
     offsetof isize (.int i) = .ok off ↔ (fitsSsize i ∧ fitsSsize (i * isize) ∧ off = i * isize) := by
   simp only [offsetof, typeOffsetof]
+  gen_norm
   have c1 : ¬ (true = false ∨ isize < 0) := by simp; omega
   by_cases hf : fitsSsize i
   · simp only [hf, not_true_eq_false, if_false, c1, ne_eq, true_and]
@@ -407,6 +424,7 @@ theorem offsetof_overflow_iff (isize : Int) (hs : isize ≥ 0) (hs2 : fitsSsize 
     cases this
   · intro hfit
     simp only [offsetof, typeOffsetof]
+    gen_norm
     have c1 : ¬ (true = false ∨ isize < 0) := by simp; omega
     simp only [hi, not_true_eq_false, if_false, c1, ne_eq]
     have hz : ¬ isize = 0 := by
@@ -447,6 +465,7 @@ theorem addressof_eq_add (cd : CData) (hs : cd.isize ≥ 0) (hs2 : fitsSsize cd.
     rw [hk] at hoff
     obtain ⟨f1, f2, f3⟩ := (offsetof_eq_mul cd.isize hs hs2 i off).mp hoff
     unfold addInt
+    gen_norm
     have hns : ¬ cd.isize < 0 := by omega
     simp only [f1, not_true_eq_false, if_false, Int.mul_one, wrapS_of_fits i f1, hns]
     rw [← h, f3]
